@@ -216,7 +216,7 @@ theorem sliceTime_img? (v : KView) (hu : v.processed = false) (hd : v.rangesDefi
   · rw [if_neg h1]
     by_cases h2 : searchsortedLeft (starts v) a ≥ searchsortedLeft (starts v) b
     · rw [if_pos h2, if_neg (by omega)]; rfl
-    · rw [if_neg h2, if_pos (by omega)]; rfl
+    · rw [if_neg h2, if_pos (show searchsortedLeft (starts v) a < searchsortedLeft (starts v) b by omega)]; rfl
 
 theorem searchsortedLeft_max (l : List Int) (hs : l.Pairwise (· ≤ ·)) (a c : Int) :
     searchsortedLeft l (max a c) = max (searchsortedLeft l a) (searchsortedLeft l c) := by
@@ -306,6 +306,230 @@ theorem slice_compose (v : KView) (n : Nat) (hr : Rect v.img n) (hne : v.img ≠
     congr 2 <;> omega
   · rw [if_neg hI, if_neg (by omega)]
 
+/-! ## `Kymo.__getitem__` as the user calls it; the kymograph's own time window -/
+
+/-- A scalar item or a slice with a step is refused with `IndexError` whatever the state of the kymograph; a processed
+    kymograph refuses every other item with `NotImplementedError` — before the bounds are even looked at. -/
+theorem getitem_validation (v : KView) (a b : KBound) :
+    v.getitem .scalar = .err .indexError ∧
+    v.getitem (.window a b true) = .err .indexError ∧
+    (v.processed = true → v.getitem (.window a b false) = .err .notImplemented) := by
+  refine ⟨rfl, rfl, ?_⟩
+  intro hp
+  simp [KView.getitem, hp]
+
+/-- Resolution of the bounds: `None` is the kymograph's own start / stop, an integer is taken as it is, a time string
+    that `Timeindex` reads as `ns` nanoseconds counts from the start (`ns ≥ 0`) or back from the stop (`ns < 0`), a
+    string it does not accept is a `RuntimeError`; the lines are then selected by `sliceTime`, to which `slice_lines`,
+    `slice_empty_iff`, `slice_compose` apply. -/
+theorem getitem_resolves (v : KView) (hu : v.processed = false) (a b : KBound) :
+    (∀ t, v.resolve t .none = some t) ∧ (∀ d t, v.resolve d (.ts t) = some t) ∧
+    (∀ d s ns, C01.parseTime s = some ns → v.resolve d (.str s) = some (if ns ≥ 0 then v.tStart + ns else v.tStop + ns)) ∧
+    (∀ d s, C01.parseTime s = none → v.resolve d (.str s) = none) ∧
+    (∀ a' b', v.resolve v.tStart a = some a' → v.resolve v.tStop b = some b' →
+      v.getitem (.window a b false) = v.sliceTime a' b') ∧
+    (v.resolve v.tStart a = none ∨ v.resolve v.tStop b = none →
+      v.getitem (.window a b false) = .err .runtimeError) := by
+  refine ⟨fun _ => rfl, fun _ _ => rfl, ?_, ?_, ?_, ?_⟩
+  · intro d s ns h; simp [KView.resolve, h, C01.resolve]
+  · intro d s h; simp [KView.resolve, h]
+  · intro a' b' ha hb; simp [KView.getitem, hu, ha, hb]
+  · intro h
+    simp only [KView.getitem, hu, Bool.false_eq_true, ↓reduceIte]
+    rcases h with h | h
+    · rw [h]
+    · rw [h]; split
+      · rename_i h1 h2; cases h2
+      · rfl
+
+/-- the lines lie inside `[t0, t1]`, each has positive length, and an earlier line ends before a later one starts -/
+def RangesOk (rs : List (Int × Int)) (t0 t1 : Int) : Prop :=
+  rs.Pairwise (fun r r' => r.2 ≤ r'.1) ∧ ∀ r ∈ rs, t0 ≤ r.1 ∧ r.1 < r.2 ∧ r.2 ≤ t1
+
+/-- the window invariant of a kymograph view: its own `[start, stop]` contains every line it shows -/
+def KWf (v : KView) : Prop := RangesOk (lineRanges v.img v.delta) v.tStart v.tStop
+
+theorem rangesOk_sorted (rs : List (Int × Int)) (t0 t1 : Int) (h : RangesOk rs t0 t1) :
+    (rs.map (·.1)).Pairwise (· ≤ ·) := by
+  rw [List.pairwise_map]
+  refine List.Pairwise.imp_of_mem ?_ h.1
+  intro r r' hr _ hle
+  have := (h.2 r hr).2.1
+  omega
+
+theorem mem_take_drop {α} (l : List α) (i j : Nat) (x : α) (hx : x ∈ (l.take j).drop i) :
+    ∃ k, ∃ (hk : k < l.length), i ≤ k ∧ k < j ∧ l[k] = x := by
+  obtain ⟨k, hk, rfl⟩ := List.mem_iff_getElem.mp hx
+  simp only [List.length_drop, List.length_take] at hk
+  refine ⟨i + k, by omega, by omega, by omega, ?_⟩
+  simp [List.getElem_drop, List.getElem_take]
+
+theorem rangesOk_window (rs : List (Int × Int)) (t0 t1 : Int) (h : RangesOk rs t0 t1) (i j : Nat) (hij : i < j)
+    (hj : j ≤ rs.length) (b : Int) :
+    let newStart := ((rs.map (·.1))[i]?).getD 0
+    let newStop := if j < (rs.map (·.1)).length then ((rs.map (·.1))[j]?).getD 0
+      else max (min b t1) ((rs.getLast?.map (·.2)).getD 0)
+    RangesOk ((rs.take j).drop i) newStart newStop ∧ t0 ≤ newStart ∧ newStop ≤ t1 ∧
+      (((rs.take j).drop i).head?.map (·.1)) = some newStart := by
+  intro newStart newStop
+  have hi : i < rs.length := by omega
+  have hpw := List.pairwise_iff_getElem.mp h.1
+  have hS : newStart = rs[i].1 := by
+    simp only [newStart, List.getElem?_map, List.getElem?_eq_getElem hi, Option.map_some, Option.getD_some]
+  have hmi := h.2 rs[i] (List.getElem_mem hi)
+  have hlastidx : rs.length - 1 < rs.length := by omega
+  have hlast : (rs.getLast?.map (·.2)).getD 0 = rs[rs.length - 1].2 := by
+    rw [List.getLast?_eq_getElem?, List.getElem?_eq_getElem hlastidx]; rfl
+  have hml := h.2 rs[rs.length - 1] (List.getElem_mem hlastidx)
+  have hT : (j < rs.length → newStop = (rs[j]?.map (·.1)).getD 0) ∧
+      (¬ j < rs.length → newStop = max (min b t1) rs[rs.length - 1].2) := by
+    constructor
+    · intro hlt; simp only [newStop, List.length_map, hlt, ↓reduceIte, List.getElem?_map]
+    · intro hge; simp only [newStop, List.length_map, hge, ↓reduceIte, hlast]
+  refine ⟨⟨(h.1.sublist (List.take_sublist j rs)).sublist (List.drop_sublist i _), ?_⟩, ?_, ?_, ?_⟩
+  · intro r hr
+    obtain ⟨k, hk, hik, hkj, rfl⟩ := mem_take_drop rs i j r hr
+    have hmk := h.2 rs[k] (List.getElem_mem hk)
+    refine ⟨?_, hmk.2.1, ?_⟩
+    · rw [hS]
+      by_cases hki : k = i
+      · subst hki; omega
+      · have := hpw i k hi hk (by omega); omega
+    · by_cases hlt : j < rs.length
+      · rw [hT.1 hlt, List.getElem?_eq_getElem hlt]
+        have := hpw k j hk hlt hkj
+        simpa using this
+      · rw [hT.2 hlt]
+        by_cases hkl : k = rs.length - 1
+        · subst hkl; omega
+        · have := hpw k (rs.length - 1) hk hlastidx (by omega); omega
+  · rw [hS]; omega
+  · by_cases hlt : j < rs.length
+    · rw [hT.1 hlt, List.getElem?_eq_getElem hlt]
+      have := h.2 rs[j] (List.getElem_mem hlt)
+      simp only [Option.map_some, Option.getD_some]; omega
+    · rw [hT.2 hlt]; omega
+  · rw [hS, List.head?_drop, List.getElem?_take, if_pos hij, List.getElem?_eq_getElem hi]; rfl
+
+
+/-- what a time slice that shows something is made of -/
+theorem sliceTime_view (v : KView) (hu : v.processed = false) (hd : v.rangesDefined = true) (a b : Int) (w : KView)
+    (hw : v.sliceTime a b = .view w) :
+    searchsortedLeft (starts v) a < searchsortedLeft (starts v) b ∧
+    w.img = takeCols v.img (searchsortedLeft (starts v) a) (searchsortedLeft (starts v) b) ∧
+    w.delta = v.delta ∧ w.processed = false ∧ w.rangesDefined = true ∧
+    w.tStart = ((starts v)[searchsortedLeft (starts v) a]?).getD 0 ∧
+    w.tStop = (if searchsortedLeft (starts v) b < (starts v).length then ((starts v)[searchsortedLeft (starts v) b]?).getD 0
+      else max (min b v.tStop) (((lineRanges v.img v.delta).getLast?.map (·.2)).getD 0)) := by
+  have hle := searchsortedLeft_le_length (starts v) b
+  unfold KView.sliceTime at hw
+  simp only [hu, Bool.false_eq_true, ↓reduceIte, KView.ranges, hd] at hw
+  split at hw
+  · cases hw
+  · split at hw
+    · cases hw
+    · rename_i h1 h2
+      have h1' : ¬ searchsortedLeft (starts v) a = (starts v).length := h1
+      have h2' : ¬ searchsortedLeft (starts v) a ≥ searchsortedLeft (starts v) b := h2
+      injection hw with hw
+      subst hw
+      refine ⟨by omega, rfl, rfl, rfl, rfl, rfl, rfl⟩
+
+/-- **The time window of a time slice.**  If the kymograph's `[start, stop]` contains its lines (in order, not
+    overlapping), then so does the slice's; the slice starts exactly with its first line, its window lies inside the
+    parent's, and its line ranges are the parent's ranges of the selected lines. -/
+theorem slice_window (v : KView) (n : Nat) (hr : Rect v.img n) (hne : v.img ≠ [])
+    (hu : v.processed = false) (hd : v.rangesDefined = true) (wf : KWf v) (a b : Int) (w : KView)
+    (hw : v.sliceTime a b = .view w) :
+    KWf w ∧ v.tStart ≤ w.tStart ∧ w.tStop ≤ v.tStop ∧ (starts w).head? = some w.tStart ∧
+    lineRanges w.img w.delta =
+      ((lineRanges v.img v.delta).take (searchsortedLeft (starts v) b)).drop (searchsortedLeft (starts v) a) := by
+  obtain ⟨hij, himg, hdelta, _, _, hs0, hs1⟩ := sliceTime_view v hu hd a b w hw
+  have hlen : (starts v).length = n := by
+    cases himg' : v.img with
+    | nil => exact absurd himg' hne
+    | cons r0 rs =>
+      have : r0.length = n := hr r0 (by rw [himg']; simp)
+      simp [starts, lineRanges, himg', numCols, this]
+  have hlej := searchsortedLeft_le_length (starts v) b
+  have hrs : lineRanges w.img w.delta =
+      ((lineRanges v.img v.delta).take (searchsortedLeft (starts v) b)).drop (searchsortedLeft (starts v) a) := by
+    rw [himg, hdelta]; exact slice_ranges_sublist v.img n hr v.delta _ _ (by omega)
+  have hlen' : (lineRanges v.img v.delta).length = (starts v).length := by simp [starts]
+  have key := rangesOk_window (lineRanges v.img v.delta) v.tStart v.tStop wf _ _ hij (by omega) b
+  simp only at key
+  obtain ⟨k1, k2, k3, k4⟩ := key
+  refine ⟨?_, ?_, ?_, ?_, hrs⟩
+  · unfold KWf; rw [hrs, hs0, hs1]; exact k1
+  · rw [hs0]; exact k2
+  · rw [hs1]; exact k3
+  · rw [hs0]; simp only [starts, hrs, List.head?_map]; exact k4
+
+/-- `kymo[:]` (both bounds `None`) shows every line: the image is unchanged. -/
+theorem getitem_all (v : KView) (n : Nat) (hr : Rect v.img n) (hne : v.img ≠ []) (hn : 0 < n)
+    (hu : v.processed = false) (hd : v.rangesDefined = true) (wf : KWf v) :
+    (match v.getitem (.window .none .none false) with | .view w => w.img = v.img | _ => False) := by
+  have hlen : (starts v).length = n := by
+    cases himg' : v.img with
+    | nil => exact absurd himg' hne
+    | cons r0 rs =>
+      have : r0.length = n := hr r0 (by rw [himg']; simp)
+      simp [starts, lineRanges, himg', numCols, this]
+  have hsorted : (starts v).Pairwise (· ≤ ·) := rangesOk_sorted _ _ _ wf
+  have hmem : ∀ k (hk : k < (starts v).length), v.tStart ≤ (starts v)[k] ∧ (starts v)[k] < v.tStop := by
+    intro k hk
+    have hk' : k < (lineRanges v.img v.delta).length := by simpa [starts] using hk
+    have := wf.2 _ (List.getElem_mem hk')
+    have e : (starts v)[k] = (lineRanges v.img v.delta)[k].1 := by simp [starts]
+    rw [e]; omega
+  have h0 : searchsortedLeft (starts v) v.tStart = 0 := by
+    apply searchsortedLeft_unique (starts v) hsorted v.tStart 0 (Nat.zero_le _)
+    intro k hk; have := hmem k hk; omega
+  have h1 : searchsortedLeft (starts v) v.tStop = n := by
+    apply searchsortedLeft_unique (starts v) hsorted v.tStop n (Nat.le_of_eq hlen.symm)
+    intro k hk; have := hmem k hk; omega
+  have hg : v.getitem (.window .none .none false) = v.sliceTime v.tStart v.tStop := by
+    simp [KView.getitem, hu, KView.resolve]
+  have h := slice_lines v hu hd hsorted v.tStart v.tStop
+  rw [hg]
+  cases hres : v.sliceTime v.tStart v.tStop with
+  | view w =>
+    rw [hres] at h
+    simp only
+    rw [h.2.1, h0, h1]
+    simp only [takeCols, List.drop_zero]
+    conv => rhs; rw [← List.map_id v.img]
+    apply List.map_congr_left
+    intro r hrm
+    rw [← hr r hrm]; simp
+  | empty => rw [hres] at h; exact absurd (by omega : searchsortedLeft (starts v) v.tStart < searchsortedLeft (starts v) v.tStop) h.2
+  | err e => rw [hres] at h; exact h.2
+
+
+/-- the window invariant gives the hypothesis of `slice_lines` / `slice_compose`: line starts in order -/
+theorem kwf_starts_sorted (v : KView) (wf : KWf v) : (starts v).Pairwise (· ≤ ·) := rangesOk_sorted _ _ _ wf
+
+/-- the order hypothesis of `slice_lines` is needed: on starts that are not in order `searchsorted` does not find the
+    line that lies in the window (kernel-checked instance: a test of the hypothesis, not a statement about all inputs) -/
+example : let l : List Int := [10, 30, 20]
+    ¬ (∀ c (hc : c < l.length), (searchsortedLeft l 15 ≤ c ∧ c < searchsortedLeft l 25) ↔ (15 ≤ l[c] ∧ l[c] < 25)) := by
+  decide
+
+/-- non-vacuity of `KWf`: three lines of two pixels, window `[90, 400]`; `kymo["110ns":"-100ns"]` keeps the middle
+    line and its window is `[200, 300]` -/
+def exKymo : KView :=
+  { img := [[⟨1, 100, 110⟩, ⟨2, 200, 210⟩, ⟨3, 300, 310⟩], [⟨4, 120, 130⟩, ⟨5, 220, 230⟩, ⟨6, 320, 330⟩]],
+    rangesDefined := true, delta := 10, px := 1, unit := 0, pxUm := some 1, lineTimeNs := 100, scanTimeNs := 40,
+    processed := false, offset := 0, tStart := 90, tStop := 400 }
+
+example : KWf exKymo := by
+  unfold KWf RangesOk exKymo
+  decide
+
+example : (match exKymo.getitem (.window (.str "20ns") (.str "-100ns") false) with
+    | .view w => decide (values w.img = [[2], [5]] ∧ w.tStart = 200 ∧ w.tStop = 300)
+    | _ => false) = true := by decide +kernel
+
 /-! ## Flip -/
 
 theorem values_zipWith_left (a b : List Pix) (h : a.length = b.length) :
@@ -387,6 +611,106 @@ theorem down_calibration (v : KView) (tf pf : Nat) (htf : 0 < tf) (hpf : 0 < pf)
   have : ¬ (tf = 0 ∨ pf = 0) := by omega
   simp only [this, ↓reduceIte, hu, KView.pixelsPerLine, down_shape _ _ _ hpf, true_and]
   intro h; simp [KView.ranges, h]
+
+/-! ## Down-sampling: the sum over the whole block -/
+
+/-- photon counts of the pixels `k ≤ c < k + t` of a row, added up -/
+def winSum (k t : Nat) (r : List Pix) : Int := (((r.drop k).take t).map (·.v)).sum
+
+theorem sum_append_int (a b : List Int) : (a ++ b).sum = a.sum + b.sum := by
+  induction a with
+  | nil => simp
+  | cons x xs ih => simp [ih]; omega
+
+theorem foldl_add_v (ps : List Pix) (p : Pix) : (ps.foldl Pix.add p).v = p.v + (ps.map (·.v)).sum := by
+  induction ps generalizing p with
+  | nil => simp
+  | cons q qs ih => simp [ih, Pix.add]; omega
+
+theorem sumPix_v (l : List Pix) : (sumPix l).v = (l.map (·.v)).sum := by
+  cases l with
+  | nil => rfl
+  | cons p ps => simp [sumPix, foldl_add_v]
+
+theorem sum_zipWith_add (a b : List Pix) (h : a.length = b.length) :
+    ((List.zipWith Pix.add a b).map (·.v)).sum = (a.map (·.v)).sum + (b.map (·.v)).sum := by
+  induction a generalizing b with
+  | nil => cases b with
+    | nil => simp
+    | cons y ys => simp at h
+  | cons x xs ih =>
+    cases b with
+    | nil => simp at h
+    | cons y ys =>
+      have := ih ys (by simpa using h)
+      simp only [List.zipWith_cons_cons, List.map_cons, List.sum_cons, this, Pix.add]
+      omega
+
+theorem winSum_zipWith (k t : Nat) (a b : List Pix) (h : a.length = b.length) :
+    winSum k t (List.zipWith Pix.add a b) = winSum k t a + winSum k t b := by
+  unfold winSum
+  rw [List.drop_zipWith, List.take_zipWith]
+  apply sum_zipWith_add
+  simp [h]
+
+theorem foldl_zipWith_spec (k t n : Nat) (rs : List (List Pix)) (hr : Rect rs n) (acc : List Pix) (ha : acc.length = n) :
+    (rs.foldl (fun acc x => List.zipWith Pix.add acc x) acc).length = n ∧
+    winSum k t (rs.foldl (fun acc x => List.zipWith Pix.add acc x) acc) = winSum k t acc + (rs.map (winSum k t)).sum := by
+  induction rs generalizing acc with
+  | nil => simp [ha]
+  | cons x xs ih =>
+    have hx : x.length = n := hr x (by simp)
+    have hl : (List.zipWith Pix.add acc x).length = n := by simp [ha, hx]
+    have := ih (fun r hrm => hr r (by simp [hrm])) (List.zipWith Pix.add acc x) hl
+    simp only [List.foldl_cons, List.map_cons, List.sum_cons]
+    refine ⟨this.1, ?_⟩
+    rw [this.2, winSum_zipWith k t acc x (by omega)]
+    omega
+
+theorem block2d_sum (band : List (List Pix)) (tf j : Nat) :
+    ((block2d band tf j).map (·.v)).sum = (band.map (winSum (j * tf) tf)).sum := by
+  unfold block2d
+  induction band with
+  | nil => simp
+  | cons r rs ih => simp only [List.flatMap_cons, List.map_append, sum_append_int, ih, List.map_cons, List.sum_cons]; rfl
+
+/-- **Binning adds up exactly the pixels of the block.**  On a rectangular image with `n` lines, row `i` of the
+    down-sampled image has `⌊n / tf⌋` entries and entry `j` holds the sum of the photon counts of ALL pixels of the
+    two-dimensional block — source rows `i·pf … i·pf + pf − 1` × lines `j·tf … j·tf + tf − 1` — although the code adds
+    the rows of a band first and then the lines (specification: a plain sum over the block, as for `down_with_entry`). -/
+theorem down_entry_sum (img : Img) (n : Nat) (hr : Rect img n) (pf tf : Nat) (hpf : 0 < pf) (htf : 0 < tf) (i : Nat)
+    (hi : i < (blockReduce img pf tf).length) :
+    ((blockReduce img pf tf)[i]).length = n / tf ∧
+    ∀ j (hj : j < ((blockReduce img pf tf)[i]).length),
+      (((blockReduce img pf tf)[i])[j]).v = ((block2d ((img.drop (i * pf)).take pf) tf j).map (·.v)).sum := by
+  have hi' : i < img.length / pf := by rw [← down_shape img pf tf hpf]; exact hi
+  obtain ⟨hrow, hchunk⟩ := down_entry img pf tf hpf htf i hi
+  -- the band of source rows
+  have hmul : i * pf + pf ≤ img.length := by
+    have := Nat.div_mul_le_self img.length pf
+    have : (i + 1) * pf ≤ img.length / pf * pf := Nat.mul_le_mul_right pf (by omega)
+    rw [Nat.add_mul] at this; omega
+  have hbl : ((img.drop (i * pf)).take pf).length = pf := by simp; omega
+  have hbr : Rect ((img.drop (i * pf)).take pf) n := fun r hrm => hr r (List.mem_of_mem_drop (List.mem_of_mem_take hrm))
+  generalize hband : (img.drop (i * pf)).take pf = band at *
+  cases band with
+  | nil => simp at hbl; omega
+  | cons r0 rs =>
+    have h0 : r0.length = n := hbr r0 (by simp)
+    have hrs : Rect rs n := fun r hrm => hbr r (by simp [hrm])
+    have hlen : (addRows (r0 :: rs)).length = n := (foldl_zipWith_spec 0 0 n rs hrs r0 h0).1
+    have hcl : (chunks tf (addRows (r0 :: rs))).length = n / tf := by rw [chunks_length tf htf, hlen]
+    constructor
+    · rw [hrow, List.length_map, hcl]
+    · intro j hj
+      have hj' : j < (chunks tf (addRows (r0 :: rs))).length := by
+        rw [hrow, List.length_map] at hj; exact hj
+      have e : ((blockReduce img pf tf)[i])[j] = sumPix ((chunks tf (addRows (r0 :: rs)))[j]) := by
+        simp only [hrow, List.getElem_map]
+      rw [e, hchunk j hj', sumPix_v, block2d_sum]
+      have := (foldl_zipWith_spec (j * tf) tf n rs hrs r0 h0).2
+      simp only [List.map_cons, List.sum_cons]
+      exact this
 
 /-! ## Recalibration -/
 
@@ -648,7 +972,7 @@ theorem scan_pixel_counts (v : SView) (f : Frame) (fs : List Frame) (h : v.frame
 /-- non-vacuity: a 2×3 frame scanned along the columns with 20 ns between neighbours; cropping columns `1:` gives a
     view that reports 20 ns -/
 def exScan : SView :=
-  ⟨[[[⟨1, 0, 10⟩, ⟨1, 20, 30⟩, ⟨1, 40, 50⟩], [⟨1, 100, 110⟩, ⟨1, 120, 130⟩, ⟨1, 140, 150⟩]]], 10, false⟩
+  ⟨[[[⟨1, 0, 10⟩, ⟨1, 20, 30⟩, ⟨1, 40, 50⟩], [⟨1, 100, 110⟩, ⟨1, 120, 130⟩, ⟨1, 140, 150⟩]]], 10, false, 0, 200⟩
 
 example : (match exScan.slice none none none none (some 1) none with
      | .view w => decide (w.pixelTime = some 20 ∧ w.pixelsPerLine = 2 ∧ w.linesPerFrame = 2)
@@ -661,5 +985,1135 @@ theorem time_to_frame_start (v : SView) (t : Int) (hs : (v.ranges.map (·.1)).Pa
   unfold SView.timeToFrame
   simp only [↓reduceIte, Int.ofNat_lt]
   exact lt_searchsortedLeft_iff _ hs t c hc
+
+/-! ## Scans: `scan[item]` as the user calls it -/
+
+theorem axis_check_error (x : SAxisItem) (e : Err) (h : x.check = .error e) : e = .indexError := by
+  cases x with
+  | slice a b step =>
+    simp only [SAxisItem.check] at h
+    split at h
+    · injection h with h; exact h.symm
+    · cases h
+  | int => injection h with h; exact h.symm
+  | other => injection h with h; exact h.symm
+
+theorem mapM_check_error (sp : List SAxisItem) (h : ∃ x ∈ sp, ∃ e, x.check = .error e) :
+    sp.mapM SAxisItem.check = .error .indexError := by
+  induction sp with
+  | nil => obtain ⟨x, hx, _⟩ := h; cases hx
+  | cons y ys ih =>
+    rw [List.mapM_cons]
+    cases hy : y.check with
+    | error e => rw [axis_check_error y e hy]; rfl
+    | ok r =>
+      obtain ⟨x, hx, e, he⟩ := h
+      have hx' : x ∈ ys := by
+        rcases List.mem_cons.mp hx with rfl | hx'
+        · rw [hy] at he; cases he
+        · exact hx'
+      rw [ih ⟨x, hx', e, he⟩]; rfl
+
+/-- Refused items: a frame item that is neither an integer nor a slice, a frame slice with a step — `IndexError`
+    whatever else is written; with an integer frame index, any spatial item that is not a slice without step (a scalar,
+    a stepped slice, anything else) — `IndexError` as well, before any frame is looked up. -/
+theorem scan_getitem_validation (v : SView) (a b : SBound) (i : Int) (sp : List SAxisItem) :
+    v.getitem .other sp = .err .indexError ∧
+    v.getitem (.slice a b true) sp = .err .indexError ∧
+    ((∃ x ∈ sp, ∃ e, x.check = .error e) → v.getitem (.int i) sp = .err .indexError) := by
+  refine ⟨rfl, rfl, ?_⟩
+  intro h
+  simp only [SView.getitem, mapM_check_error sp h]
+
+/-- How a bound of the frame slice is read: `None` stays open; an integer below `_FIRST_TIMESTAMP` is a frame index
+    as it stands; an integer from `_FIRST_TIMESTAMP` on is looked up in the frame starts / stops; a time string that
+    `Timeindex` reads as `ns` is the timestamp `start + ns` (`ns ≥ 0`) or `stop + ns` (`ns < 0`) of the scan's own window,
+    then treated like an integer; a string `Timeindex` rejects is a `RuntimeError`. -/
+theorem scan_bound_resolution (v : SView) (isStart : Bool) :
+    v.timeToFrameB isStart .none = .ok none ∧
+    (∀ n, n < firstTimestamp → v.timeToFrameB isStart (.num n) = .ok (some n)) ∧
+    (∀ t, firstTimestamp ≤ t → v.timeToFrameB isStart (.num t) = .ok (some (v.timeToFrame t isStart))) ∧
+    (∀ s, C01.parseTime s = none → v.timeToFrameB isStart (.str s) = .error .runtimeError) ∧
+    (∀ s ns, C01.parseTime s = some ns →
+      v.timeToFrameB isStart (.str s) = v.timeToFrameB isStart (.num (if ns ≥ 0 then v.tStart + ns else v.tStop + ns))) := by
+  refine ⟨rfl, ?_, ?_, ?_, ?_⟩
+  · intro n h; simp [SView.timeToFrameB, h]
+  · intro t h; have : ¬ t < firstTimestamp := by omega
+    simp [SView.timeToFrameB, this]
+  · intro s h; simp [SView.timeToFrameB, h]
+  · intro s ns h; simp [SView.timeToFrameB, h, C01.resolve]
+
+/-- Accepted items select what `scan_index_refines` / `scan_slice_refines` describe (rows from the first spatial slice,
+    columns from the second, a missing one is the full axis), and the result gets its start / stop stamped. -/
+theorem scan_getitem_refines (v : SView) (i : Int) (a b : SBound) (a' b' y0 y1 x0 x1 : Option Int)
+    (ha : v.timeToFrameB true a = .ok a') (hb : v.timeToFrameB false b = .ok b') :
+    v.getitem (.int i) [] = (v.index i none none none none).stamp ∧
+    v.getitem (.int i) [.slice y0 y1 false] = (v.index i y0 y1 none none).stamp ∧
+    v.getitem (.int i) [.slice y0 y1 false, .slice x0 x1 false] = (v.index i y0 y1 x0 x1).stamp ∧
+    v.getitem (.slice a b false) [] = (v.slice a' b' none none none none).stamp ∧
+    v.getitem (.slice a b false) [.slice y0 y1 false] = (v.slice a' b' y0 y1 none none).stamp ∧
+    v.getitem (.slice a b false) [.slice y0 y1 false, .slice x0 x1 false] = (v.slice a' b' y0 y1 x0 x1).stamp := by
+  refine ⟨rfl, rfl, rfl, ?_, ?_, ?_⟩ <;> simp [SView.getitem, ha, hb, SAxisItem.check, pure, Except.pure, bind, Except.bind]
+
+/-- Time → frame index, stop bound: the number of frames that stop before the timestamp. -/
+theorem time_to_frame_stop (v : SView) (t : Int) (hs : (v.ranges.map (·.2)).Pairwise (· ≤ ·)) (c : Nat)
+    (hc : c < (v.ranges.map (·.2)).length) :
+    ((c : Int) < v.timeToFrame t false) ↔ (v.ranges.map (·.2))[c] < t := by
+  unfold SView.timeToFrame
+  simp only [Bool.false_eq_true, ↓reduceIte, Int.ofNat_lt]
+  exact lt_searchsortedLeft_iff _ hs t c hc
+
+/-- frame start / stop timestamps of a scan view -/
+abbrev sStarts (v : SView) : List Int := v.ranges.map (·.1)
+abbrev sStops (v : SView) : List Int := v.ranges.map (·.2)
+
+theorem pySliceOpt_none_none {α} (l : List α) : pySliceOpt l none none = l := by
+  have : ¬ ((l.length : Int) < 0) := by omega
+  simp [pySliceOpt, pySlice, pyNorm, this]
+
+theorem cropFrame_none (f : Frame) : cropFrame f none none none none = f := by
+  simp [cropFrame, pySliceOpt_none_none]
+
+/-- **A time window on a scan.**  With frame starts and frame stops in order, `scan[a:b]` for two timestamps keeps
+    exactly the frames that start at or after `a` AND stop before `b` (the frames lying inside the window), as one
+    contiguous run of the frame list, with start / stop stamped; no such frame: the empty scan. -/
+theorem scan_time_window (v : SView) (a b : Int) (ha : firstTimestamp ≤ a) (hb : firstTimestamp ≤ b)
+    (hs : (sStarts v).Pairwise (· ≤ ·)) (he : (sStops v).Pairwise (· ≤ ·))
+    (hne : ∀ f ∈ v.frames, emptyAxis f = false) :
+    (∀ c (h1 : c < (sStarts v).length) (h2 : c < (sStops v).length),
+      (searchsortedLeft (sStarts v) a ≤ c ∧ c < searchsortedLeft (sStops v) b) ↔
+        (a ≤ (sStarts v)[c] ∧ (sStops v)[c] < b)) ∧
+    v.getitem (.slice (.num a) (.num b) false) [] =
+      (if (v.frames.take (searchsortedLeft (sStops v) b)).drop (searchsortedLeft (sStarts v) a) = []
+       then .empty
+       else .view ({ v with frames :=
+          (v.frames.take (searchsortedLeft (sStops v) b)).drop (searchsortedLeft (sStarts v) a) }).stamp) := by
+  constructor
+  · intro c h1 h2
+    have e1 := lt_searchsortedLeft_iff _ hs a c h1
+    have e2 := lt_searchsortedLeft_iff _ he b c h2
+    omega
+  · have na : ¬ a < firstTimestamp := by omega
+    have nb : ¬ b < firstTimestamp := by omega
+    generalize hiA : searchsortedLeft (sStarts v) a = iA
+    generalize hiB : searchsortedLeft (sStops v) b = iB
+    have hget : v.getitem (.slice (.num a) (.num b) false) [] =
+        (v.slice (some (iA : Int)) (some (iB : Int)) none none none none).stamp := by
+      simp [SView.getitem, SView.timeToFrameB, na, nb, SView.timeToFrame, hiA, hiB, pure, Except.pure]
+    have hfs : pySliceOpt v.frames (some (iA : Int)) (some (iB : Int)) = (v.frames.take iB).drop iA := by
+      simp only [pySliceOpt, Option.getD_some]
+      rw [C01.pySlice_nonneg _ _ _ (by omega) (by omega)]
+      simp
+    rw [hget, scan_slice_refines, hfs]
+    by_cases hnil : (v.frames.take iB).drop iA = []
+    · simp [hnil, SRes.stamp]
+    · have hany : ((v.frames.take iB).drop iA).any (fun f => emptyAxis (cropFrame f none none none none)) = false := by
+        rw [List.any_eq_false]
+        intro f hf
+        rw [cropFrame_none]
+        have := hne f (List.mem_of_mem_take (List.mem_of_mem_drop hf))
+        simp [this]
+      have hmap : ((v.frames.take iB).drop iA).map (fun f => cropFrame f none none none none) = (v.frames.take iB).drop iA := by
+        conv => rhs; rw [← List.map_id ((v.frames.take iB).drop iA)]
+        apply List.map_congr_left
+        intro f _; rw [cropFrame_none]; rfl
+      simp only [hnil, ↓reduceIte, hany, Bool.false_eq_true, hmap, SRes.stamp]
+
+/-- The start a `__getitem__` stamps on its result is the start of the first frame it shows (dead time or not). -/
+theorem scan_stamp_start (w : SView) : w.stamp.tStart = ((w.ranges.head?).map (·.1)).getD 0 := by
+  unfold SView.stamp
+  by_cases h : w.numFrames > 1
+  · simp only [h, ↓reduceIte]
+    unfold SView.deadRanges
+    split
+    · rename_i s0 s1 rest heq
+      cases hr : w.ranges with
+      | nil => rw [hr] at heq; cases heq
+      | cons r rs =>
+        rw [hr] at heq
+        simp only [List.map_cons, List.cons.injEq] at heq
+        simp [heq.1]
+    · rfl
+  · simp only [h, ↓reduceIte]
+
+/-- non-vacuity: three one-pixel-row frames; `scan["100ns":"-50ns"]` on the window `[0, 700]`, read as timestamps
+    `firstTimestamp + …` -/
+def exScan3 : SView :=
+  ⟨[[[⟨1, firstTimestamp + 0, firstTimestamp + 10⟩, ⟨1, firstTimestamp + 20, firstTimestamp + 30⟩]],
+    [[⟨2, firstTimestamp + 200, firstTimestamp + 210⟩, ⟨2, firstTimestamp + 220, firstTimestamp + 230⟩]],
+    [[⟨3, firstTimestamp + 400, firstTimestamp + 410⟩, ⟨3, firstTimestamp + 420, firstTimestamp + 430⟩]]], 10, false,
+    firstTimestamp, firstTimestamp + 700⟩
+
+example : (match exScan3.getitem (.slice (.str "100ns") (.str "-50ns") false) [] with
+    | .view w => decide (w.frames.map values = [[[2, 2]], [[3, 3]]] ∧ w.tStart = firstTimestamp + 200 ∧
+        w.tStop = firstTimestamp + 600)
+    | _ => false) = true := by decide +kernel
+
+/-! ## Compositions at the level of views -/
+
+/-- **Crop of a crop.**  Two successive `crop_by_distance` calls show the rows the index arithmetic of the two row
+    windows gives (`crop_crop`), keep the pixel size, and the position offsets add up. -/
+theorem crop_crop_view (v w u : KView) (lo1 hi1 lo2 hi2 : Rat) (h1l : 0 ≤ lo1) (h1h : 0 ≤ hi1) (h2l : 0 ≤ lo2)
+    (h2h : 0 ≤ hi2) (hpx : 0 < v.px) (hw : v.crop lo1 hi1 = .view w) (hu : w.crop lo2 hi2 = .view u) :
+    u.img = (v.img.take (min (hi1 / v.px).ceil.toNat ((lo1 / v.px).floor.toNat + (hi2 / v.px).ceil.toNat))).drop
+      ((lo1 / v.px).floor.toNat + (lo2 / v.px).floor.toNat) ∧
+    u.px = v.px ∧
+    u.offset = v.offset + (((lo1 / v.px).floor + (lo2 / v.px).floor : Int) : Rat) * v.px := by
+  have c1 := crop_rows v lo1 hi1 h1l h1h hpx
+  simp only [hw] at c1
+  obtain ⟨_, _, hwi, _, hwp, hwo⟩ := c1
+  have c2 := crop_rows w lo2 hi2 h2l h2h (by rw [hwp]; exact hpx)
+  simp only [hu] at c2
+  obtain ⟨_, _, hui, _, hup, huo⟩ := c2
+  rw [hwp] at hui hup huo
+  refine ⟨?_, hup, ?_⟩
+  · rw [hui, hwi]; exact crop_crop v.img _ _ _ _
+  · rw [huo, hwo, Rat.intCast_add, Rat.add_mul, Rat.add_assoc]
+
+/-- non-vacuity of `crop_crop_view` -/
+example : (match exKymo.crop 0 2 with
+    | .view w => (match w.crop 1 2 with | .view u => decide (values u.img = [[4, 5, 6]]) | _ => false)
+    | _ => false) = true := by decide +kernel
+
+/-- **Flip of a flip** shows the photon counts of the original. -/
+theorem flip_flip_view (v : KView) (n : Nat) (hr : Rect v.img n) :
+    (match v.flip with
+     | .view w => (match w.flip with | .view u => values u.img = values v.img | _ => False)
+     | _ => False) := by
+  have h1 := flip_rows v n hr
+  cases hf : v.flip with
+  | view w =>
+    rw [hf] at h1
+    simp only
+    have hrw : Rect w.img n := by
+      unfold KView.flip at hf
+      injection hf with hf
+      rw [← hf]
+      intro r hrm
+      simp only at hrm
+      obtain ⟨k, hk, rfl⟩ := List.mem_iff_getElem.mp hrm
+      simp only [List.getElem_zipWith, List.length_zipWith]
+      simp only [List.length_zipWith, List.length_reverse, Nat.min_self] at hk
+      rw [hr _ (List.getElem_mem _), hr _ (List.mem_reverse.mp (List.getElem_mem _))]; simp
+    have h2 := flip_rows w n hrw
+    cases hf2 : w.flip with
+    | view u =>
+      rw [hf2] at h2
+      simp only
+      rw [h2.1, h1.1, List.reverse_reverse]
+    | empty => rw [hf2] at h2; exact h2
+    | err e => rw [hf2] at h2; exact h2
+  | empty => rw [hf] at h1; exact h1
+  | err e => rw [hf] at h1; exact h1
+
+/-- **Slice of a slice of frames / rows / columns, any bounds** (negative, `None`, out of range): the composition of two
+    Python slices is the window computed by index arithmetic on the normalised bounds. -/
+theorem pySliceOpt_pySliceOpt {α} (l : List α) (a b c d : Option Int) :
+    pySliceOpt (pySliceOpt l a b) c d =
+      let l1 := pyNorm l.length (a.getD 0)
+      let u1 := pyNorm l.length (b.getD l.length)
+      let m := (pySliceOpt l a b).length
+      (l.take (min u1 (l1 + pyNorm m (d.getD m)))).drop (l1 + pyNorm m (c.getD 0)) := by
+  simp only [pySliceOpt, pySlice]
+  exact crop_crop l _ _ _ _
+
+/-- **Line time of a time slice.**  When the lines of the kymograph start `T` ns apart, every time slice that shows at
+    least two lines reports the line time `T`; a slice of a single line reports the bare scan time of one line (there is
+    no second line to measure a period from). -/
+theorem slice_line_time (v : KView) (hu : v.processed = false) (hd : v.rangesDefined = true) (T : Int)
+    (hT : ∀ k (h : k + 1 < (lineRanges v.img v.delta).length),
+      (lineRanges v.img v.delta)[k + 1].1 - (lineRanges v.img v.delta)[k].1 = T)
+    (a b : Int) (w : KView) (hw : v.sliceTime a b = .view w) :
+    (searchsortedLeft (starts v) a + 2 ≤ searchsortedLeft (starts v) b → w.lineTimeNs = (T : Rat)) ∧
+    (searchsortedLeft (starts v) b = searchsortedLeft (starts v) a + 1 → w.lineTimeNs = v.scanTimeNs) := by
+  have hle : searchsortedLeft (starts v) b ≤ (lineRanges v.img v.delta).length := by
+    have := searchsortedLeft_le_length (starts v) b
+    simpa [starts] using this
+  have hlt : w.lineTimeNs = (match ((lineRanges v.img v.delta).take (searchsortedLeft (starts v) b)).drop
+        (searchsortedLeft (starts v) a) with
+      | r0 :: r1 :: _ => ((r1.1 - r0.1 : Int) : Rat)
+      | _ => v.scanTimeNs) := by
+    unfold KView.sliceTime at hw
+    simp only [hu, Bool.false_eq_true, ↓reduceIte, KView.ranges, hd] at hw
+    split at hw
+    · cases hw
+    · split at hw
+      · cases hw
+      · injection hw with hw
+        subst hw
+        rfl
+  generalize searchsortedLeft (starts v) a = i at *
+  generalize searchsortedLeft (starts v) b = j at *
+  constructor
+  · intro h2
+    have hl : (((lineRanges v.img v.delta).take j).drop i) = (lineRanges v.img v.delta)[i] :: (lineRanges v.img v.delta)[i + 1] :: ((lineRanges v.img v.delta).take j).drop (i + 2) := by
+      have l1 : i < ((lineRanges v.img v.delta).take j).length := by simp; omega
+      have l2 : i + 1 < ((lineRanges v.img v.delta).take j).length := by simp; omega
+      rw [List.drop_eq_getElem_cons l1, List.drop_eq_getElem_cons l2]
+      simp [List.getElem_take]
+    rw [hlt, hl]
+    simp only
+    rw [hT i (by omega)]
+  · intro h1
+    have hl : (((lineRanges v.img v.delta).take j).drop i) = [(lineRanges v.img v.delta)[i]] := by
+      have l1 : i < ((lineRanges v.img v.delta).take j).length := by simp; omega
+      rw [List.drop_eq_getElem_cons l1]
+      have : ((lineRanges v.img v.delta).take j).drop (i + 1) = [] := by
+        apply List.drop_eq_nil_of_le; simp; omega
+      simp [this, List.getElem_take]
+    rw [hlt, hl]
+
+/-- non-vacuity: the three lines of `exKymo` start 100 ns apart; `kymo[150:]` shows two of them and reports 100 ns -/
+example : (match exKymo.sliceTime 150 1000 with | .view w => decide (w.lineTimeNs = 100 ∧ w.numLines = 2) | _ => false) = true := by
+  decide +kernel
+
+/-! ## Down-sampling: the timestamps of a block -/
+
+/-- `m` is the extreme element of `xs` for the order `R` (`≤`: the smallest, `≥`: the largest) -/
+def IsExtr (R : Int → Int → Prop) (m : Int) (xs : List Int) : Prop := (∀ x ∈ xs, R m x) ∧ m ∈ xs
+
+/-- a component of a pixel that `Pix.add` combines with a selecting operation (`tmin` with `min`, `tmax` with `max`) -/
+structure Sel (R : Int → Int → Prop) (g : Pix → Int) (op : Int → Int → Int) : Prop where
+  add : ∀ a b, g (Pix.add a b) = op (g a) (g b)
+  sel : ∀ a b, op a b = a ∨ op a b = b
+  le : ∀ a b, R (op a b) a ∧ R (op a b) b
+  refl : ∀ a, R a a
+  trans : ∀ a b c, R a b → R b c → R a c
+
+theorem selMin : Sel (· ≤ ·) (·.tmin) min :=
+  ⟨fun _ _ => rfl, fun a b => by omega, fun a b => by omega, fun a => Int.le_refl a, fun _ _ _ => Int.le_trans⟩
+
+theorem selMax : Sel (· ≥ ·) (·.tmax) max :=
+  ⟨fun _ _ => rfl, fun a b => by omega, fun a b => by omega, fun a => Int.le_refl a, fun _ _ _ h1 h2 => Int.le_trans h2 h1⟩
+
+variable {R : Int → Int → Prop} {g : Pix → Int} {op : Int → Int → Int}
+
+theorem foldl_add_extr (S : Sel R g op) (ps : List Pix) (p : Pix) :
+    IsExtr R (g (ps.foldl Pix.add p)) (g p :: ps.map g) := by
+  induction ps generalizing p with
+  | nil => exact ⟨fun x hx => by simp at hx; rw [hx]; exact S.refl _, by simp⟩
+  | cons q qs ih =>
+    have h := ih (Pix.add p q)
+    rw [S.add] at h
+    simp only [List.foldl_cons, List.map_cons]
+    constructor
+    · intro x hx
+      simp only [List.mem_cons] at hx
+      rcases hx with rfl | rfl | hx
+      · exact S.trans _ _ _ (h.1 (op (g p) (g q)) (by simp)) (S.le (g p) (g q)).1
+      · exact S.trans _ _ _ (h.1 (op (g p) (g q)) (by simp)) (S.le (g p) (g q)).2
+      · exact h.1 x (by simp [hx])
+    · have := h.2
+      simp only [List.mem_cons] at this ⊢
+      rcases this with h0 | h0
+      · rcases S.sel (g p) (g q) with e | e <;> rw [e] at h0 <;> simp [h0]
+      · exact Or.inr (Or.inr h0)
+
+theorem sumPix_extr (S : Sel R g op) (l : List Pix) (hl : l ≠ []) : IsExtr R (g (sumPix l)) (l.map g) := by
+  cases l with
+  | nil => exact absurd rfl hl
+  | cons p ps => exact foldl_add_extr S ps p
+
+/-- the values of `g` on the pixels `k ≤ c < k + t` of a row -/
+def winG (g : Pix → Int) (k t : Nat) (r : List Pix) : List Int := ((r.drop k).take t).map g
+
+theorem winG_zipWith (S : Sel R g op) (k t : Nat) (a b : List Pix) :
+    winG g k t (List.zipWith Pix.add a b) = List.zipWith op (winG g k t a) (winG g k t b) := by
+  unfold winG
+  rw [List.drop_zipWith, List.take_zipWith, List.map_zipWith, List.zipWith_map]
+  congr 1
+  funext x y
+  exact S.add x y
+
+theorem extr_zipWith (S : Sel R g op) (m : Int) (A B C : List Int) (hlen : A.length = B.length)
+    (h : IsExtr R m (List.zipWith op A B ++ C)) : IsExtr R m (A ++ (B ++ C)) := by
+  constructor
+  · intro x hx
+    simp only [List.mem_append] at hx
+    rcases hx with hx | hx | hx
+    · obtain ⟨c, hc, rfl⟩ := List.mem_iff_getElem.mp hx
+      have hz : op A[c] (B[c]'(by omega)) ∈ List.zipWith op A B ++ C := by
+        apply List.mem_append_left
+        apply List.mem_iff_getElem.mpr
+        exact ⟨c, by simp; omega, by simp⟩
+      exact S.trans _ _ _ (h.1 _ hz) (S.le _ _).1
+    · obtain ⟨c, hc, rfl⟩ := List.mem_iff_getElem.mp hx
+      have hz : op (A[c]'(by omega)) B[c] ∈ List.zipWith op A B ++ C := by
+        apply List.mem_append_left
+        apply List.mem_iff_getElem.mpr
+        exact ⟨c, by simp; omega, by simp⟩
+      exact S.trans _ _ _ (h.1 _ hz) (S.le _ _).2
+    · exact h.1 x (by simp [hx])
+  · have := h.2
+    simp only [List.mem_append] at this ⊢
+    rcases this with h0 | h0
+    · obtain ⟨c, hc, e⟩ := List.mem_iff_getElem.mp h0
+      simp only [List.length_zipWith] at hc
+      simp only [List.getElem_zipWith] at e
+      rcases S.sel (A[c]'(by omega)) (B[c]'(by omega)) with e' | e'
+      · left; rw [← e, e']; exact List.getElem_mem _
+      · right; left; rw [← e, e']; exact List.getElem_mem _
+    · exact Or.inr (Or.inr h0)
+
+theorem foldl_zipWith_extr (S : Sel R g op) (k t n : Nat) (m : Int) (rs : List (List Pix)) (hr : Rect rs n)
+    (acc : List Pix) (ha : acc.length = n) (C : List Int)
+    (h : IsExtr R m (winG g k t (rs.foldl (fun acc x => List.zipWith Pix.add acc x) acc) ++ C)) :
+    IsExtr R m (winG g k t acc ++ (rs.flatMap (winG g k t) ++ C)) := by
+  induction rs generalizing acc C with
+  | nil => simpa using h
+  | cons x xs ih =>
+    have hx : x.length = n := hr x (by simp)
+    have hl : (List.zipWith Pix.add acc x).length = n := by simp [ha, hx]
+    have h1 := ih (fun r hrm => hr r (by simp [hrm])) (List.zipWith Pix.add acc x) hl C h
+    rw [winG_zipWith S] at h1
+    have h2 := extr_zipWith S m _ _ _ (by simp [winG, ha, hx]) h1
+    simpa [List.flatMap_cons, List.append_assoc] using h2
+
+/-- **Timestamps of a binned pixel.**  Each entry of the down-sampled image carries, as its first timestamp, the
+    smallest first timestamp found among ALL pixels of its two-dimensional block (it is one of them, and none is
+    smaller), and as its last timestamp the largest last timestamp of the block — the quantities the line ranges of a
+    position-binned kymograph are made of. -/
+theorem down_entry_timestamps (img : Img) (n : Nat) (hr : Rect img n) (pf tf : Nat) (hpf : 0 < pf) (htf : 0 < tf) (i : Nat)
+    (hi : i < (blockReduce img pf tf).length) (j : Nat) (hj : j < ((blockReduce img pf tf)[i]).length) :
+    IsExtr (· ≤ ·) (((blockReduce img pf tf)[i])[j]).tmin ((block2d ((img.drop (i * pf)).take pf) tf j).map (·.tmin)) ∧
+    IsExtr (· ≥ ·) (((blockReduce img pf tf)[i])[j]).tmax ((block2d ((img.drop (i * pf)).take pf) tf j).map (·.tmax)) := by
+  have hi' : i < img.length / pf := by rw [← down_shape img pf tf hpf]; exact hi
+  obtain ⟨hrow, hchunk⟩ := down_entry img pf tf hpf htf i hi
+  have hshape := (down_entry_sum img n hr pf tf hpf htf i hi).1
+  have hmul : i * pf + pf ≤ img.length := by
+    have := Nat.div_mul_le_self img.length pf
+    have : (i + 1) * pf ≤ img.length / pf * pf := Nat.mul_le_mul_right pf (by omega)
+    rw [Nat.add_mul] at this; omega
+  have hbl : ((img.drop (i * pf)).take pf).length = pf := by simp; omega
+  have hbr : Rect ((img.drop (i * pf)).take pf) n := fun r hrm => hr r (List.mem_of_mem_drop (List.mem_of_mem_take hrm))
+  generalize hband : (img.drop (i * pf)).take pf = band at *
+  cases band with
+  | nil => simp at hbl; omega
+  | cons r0 rs =>
+    have h0 : r0.length = n := hbr r0 (by simp)
+    have hrs : Rect rs n := fun r hrm => hbr r (by simp [hrm])
+    have hlen : (addRows (r0 :: rs)).length = n := (foldl_zipWith_spec 0 0 n rs hrs r0 h0).1
+    have hj' : j < (chunks tf (addRows (r0 :: rs))).length := by
+      rw [hrow, List.length_map] at hj; exact hj
+    have hjn : j < n / tf := by rw [← hshape]; exact hj
+    have e : ((blockReduce img pf tf)[i])[j] = sumPix ((chunks tf (addRows (r0 :: rs)))[j]) := by
+      simp only [hrow, List.getElem_map]
+    have hwin : (chunks tf (addRows (r0 :: rs)))[j] ≠ [] := by
+      rw [hchunk j hj']
+      intro hnil
+      have hlen' := congrArg List.length hnil
+      simp only [List.length_take, List.length_drop, hlen, List.length_nil] at hlen'
+      have : j * tf + tf ≤ n := by
+        have := Nat.div_mul_le_self n tf
+        have : (j + 1) * tf ≤ n / tf * tf := Nat.mul_le_mul_right tf (by omega)
+        rw [Nat.add_mul] at this; omega
+      omega
+    have key : ∀ {R : Int → Int → Prop} {g : Pix → Int} {op : Int → Int → Int} (S : Sel R g op),
+        IsExtr R (g (((blockReduce img pf tf)[i])[j])) ((block2d (r0 :: rs) tf j).map g) := by
+      intro R g op S
+      have h1 := sumPix_extr S _ hwin
+      rw [hchunk j hj'] at h1
+      rw [e, hchunk j hj']
+      have h2 := foldl_zipWith_extr S (j * tf) tf n _ rs hrs r0 h0 []
+        (by simpa [winG, addRows] using h1)
+      have e2 : addRows (r0 :: rs) = rs.foldl (fun acc x => List.zipWith Pix.add acc x) r0 := rfl
+      have e3 : ((block2d (r0 :: rs) tf j).map g) = winG g (j * tf) tf r0 ++ (rs.flatMap (winG g (j * tf) tf) ++ []) := by
+        simp only [block2d, List.flatMap_cons, List.map_append, List.map_flatMap, List.append_nil]; rfl
+      rw [e3, e2]; exact h2
+    exact ⟨key selMin, key selMax⟩
+
+/-- non-vacuity of `down_entry_sum` / `down_entry_timestamps`: binning the two pixel rows of `exKymo` -/
+example : blockReduce exKymo.img 2 1 = [[⟨5, 100, 130⟩, ⟨7, 200, 230⟩, ⟨9, 300, 330⟩]] := by decide +kernel
+
+/-! ## Programs of selecting operations never show other data -/
+
+/-- `g` is a window of `f`: rows `r0 ≤ r < r1`, columns `c0 ≤ c < c1` of it, in place and in order -/
+def SubImg {α} (g f : List (List α)) : Prop := ∃ r0 r1 c0 c1, g = takeCols ((f.take r1).drop r0) c0 c1
+
+def widest {α} (f : List (List α)) : Nat := f.foldr (fun r m => max r.length m) 0
+
+theorem le_widest {α} (f : List (List α)) : ∀ r ∈ f, r.length ≤ widest f := by
+  induction f with
+  | nil => intro r hr; cases hr
+  | cons x xs ih =>
+    intro r hr
+    simp only [widest, List.foldr_cons]
+    rcases List.mem_cons.mp hr with rfl | h
+    · omega
+    · have := ih r h; unfold widest at this; omega
+
+theorem takeCols_all {α} (f : List (List α)) (c : Nat) (h : ∀ r ∈ f, r.length ≤ c) : takeCols f 0 c = f := by
+  unfold takeCols
+  conv => rhs; rw [← List.map_id f]
+  apply List.map_congr_left
+  intro r hr
+  simp [List.take_of_length_le (h r hr)]
+
+/-- a window of rows only -/
+theorem SubImg.rows {α} (f : List (List α)) (r0 r1 : Nat) : SubImg ((f.take r1).drop r0) f :=
+  ⟨r0, r1, 0, widest f, (takeCols_all _ _ (fun r hr =>
+    le_widest f r (List.mem_of_mem_take (List.mem_of_mem_drop hr)))).symm⟩
+
+theorem SubImg.refl {α} (f : List (List α)) : SubImg f f := by
+  have := SubImg.rows f 0 f.length
+  simpa using this
+
+/-- a window of columns only -/
+theorem SubImg.cols {α} (f : List (List α)) (c0 c1 : Nat) : SubImg (takeCols f c0 c1) f :=
+  ⟨0, f.length, c0, c1, by simp⟩
+
+theorem takeCols_take {α} (f : List (List α)) (c0 c1 k : Nat) : (takeCols f c0 c1).take k = takeCols (f.take k) c0 c1 := by
+  simp [takeCols, List.map_take]
+
+theorem takeCols_drop {α} (f : List (List α)) (c0 c1 k : Nat) : (takeCols f c0 c1).drop k = takeCols (f.drop k) c0 c1 := by
+  simp [takeCols, List.map_drop]
+
+/-- a window of a window is a window -/
+theorem SubImg.trans {α} {h g f : List (List α)} (hg : SubImg h g) (gf : SubImg g f) : SubImg h f := by
+  obtain ⟨r0, r1, c0, c1, rfl⟩ := hg
+  obtain ⟨s0, s1, d0, d1, rfl⟩ := gf
+  refine ⟨s0 + r0, min s1 (s0 + r1), d0 + c0, min d1 (d0 + c1), ?_⟩
+  rw [takeCols_take, takeCols_drop, takeCols_takeCols, crop_crop]
+
+/-- the operations that only select: time slices (`[a:b]` in either form), crops, recalibration -/
+def KOp.selects : KOp → Bool
+  | .slice _ _ | .get _ | .crop _ _ | .cropF _ _ | .kbp _ => true
+  | _ => false
+
+theorem sliceTime_subImg (v w : KView) (a b : Int) (h : v.sliceTime a b = .view w) : SubImg w.img v.img := by
+  unfold KView.sliceTime at h
+  split at h
+  · cases h
+  · split at h
+    · cases h
+    · simp only at h
+      split at h
+      · cases h
+      · split at h
+        · cases h
+        · injection h with h; rw [← h]; exact SubImg.cols _ _ _
+
+theorem apply_subImg (v w : KView) (op : KOp) (hs : op.selects = true) (h : v.apply op = .view w) :
+    SubImg w.img v.img := by
+  cases op with
+  | slice a b => exact sliceTime_subImg v w a b h
+  | get item =>
+    cases item with
+    | scalar => cases h
+    | window a b step =>
+      simp only [KView.apply, KView.getitem] at h
+      split at h
+      · cases h
+      · split at h
+        · cases h
+        · split at h
+          · exact sliceTime_subImg v w _ _ h
+          · cases h
+  | crop lo hi =>
+    simp only [KView.apply, KView.crop] at h
+    split at h
+    · cases h
+    · split at h
+      · cases h
+      · injection h with h; rw [← h]; exact SubImg.rows _ _ _
+  | cropF lo hi =>
+    simp only [KView.apply, KView.cropF] at h
+    split at h
+    · cases h
+    · split at h
+      · cases h
+      · injection h with h; rw [← h]; exact SubImg.rows _ _ _
+  | kbp len =>
+    simp only [KView.apply, KView.kbp] at h
+    split at h
+    · cases h
+    · split at h
+      · cases h
+      · injection h with h; rw [← h]; exact SubImg.refl _
+  | flip => cases hs
+  | down tf pf => cases hs
+  | downWith red tf pf => cases hs
+
+/-- **For every program of selecting operations, of any length:** if it yields a kymograph at all, the image shown is
+    a window of the source image — rows and lines of the source, in place and in order, never other data.  (Otherwise
+    the result is the empty kymograph or one of the documented errors.) -/
+theorem selecting_program_shows_window (prog : List KOp) (hsel : ∀ op ∈ prog, op.selects = true) (v w : KView)
+    (h : runK v prog = .view w) : SubImg w.img v.img := by
+  induction prog generalizing v with
+  | nil => injection h with h; rw [← h]; exact SubImg.refl _
+  | cons op ops ih =>
+    simp only [runK] at h
+    cases hop : v.apply op with
+    | view v' =>
+      rw [hop] at h
+      simp only at h
+      have h1 := apply_subImg v v' op (hsel op (by simp)) hop
+      split at h
+      · injection h with h; rw [← h]; exact h1
+      · exact SubImg.trans (ih (fun o ho => hsel o (by simp [ho])) v' h) h1
+    | empty => rw [hop] at h; cases h
+    | err e => rw [hop] at h; cases h
+
+/-- non-vacuity: `exKymo["110ns":][crop 1..2]` shows row 1, lines 1.. of the source -/
+example : (match runK exKymo [.get (.window (.str "110ns") .none false), .crop 1 2] with
+    | .view w => decide (values w.img = [[5, 6]]) | _ => false) = true := by decide +kernel
+
+theorem stamp_view (r : SRes) (w : SView) (h : r.stamp = .view w) : ∃ w', r = .view w' ∧ w.frames = w'.frames := by
+  cases r with
+  | view w' => injection h with h; exact ⟨w', rfl, by rw [← h]; rfl⟩
+  | empty => cases h
+  | err e => cases h
+
+theorem index_frames (v w : SView) (i : Int) (y0 y1 x0 x1 : Option Int) (h : v.index i y0 y1 x0 x1 = .view w) :
+    ∀ g ∈ w.frames, ∃ f ∈ v.frames, g = cropFrame f y0 y1 x0 x1 := by
+  rw [scan_index_refines] at h
+  split at h
+  · cases h
+  · rename_i f hf
+    split at h
+    · cases h
+    · injection h with h
+      rw [← h]
+      intro g hg
+      simp only [List.mem_singleton] at hg
+      refine ⟨f, ?_, hg⟩
+      unfold pyIndex at hf
+      split at hf
+      · split at hf
+        · cases hf
+        · exact List.mem_of_getElem? hf
+      · exact List.mem_of_getElem? hf
+
+theorem slice_frames (v w : SView) (a b y0 y1 x0 x1 : Option Int) (h : v.slice a b y0 y1 x0 x1 = .view w) :
+    ∀ g ∈ w.frames, ∃ f ∈ v.frames, g = cropFrame f y0 y1 x0 x1 := by
+  rw [scan_slice_refines] at h
+  split at h
+  · cases h
+  · split at h
+    · cases h
+    · injection h with h
+      rw [← h]
+      intro g hg
+      simp only [List.mem_map] at hg
+      obtain ⟨f, hf, rfl⟩ := hg
+      exact ⟨f, mem_pySliceOpt hf, rfl⟩
+
+theorem apply_frames (v w : SView) (op : SOp) (h : v.apply op = .view w) :
+    ∀ g ∈ w.frames, ∃ f ∈ v.frames, ∃ y0 y1 x0 x1, g = cropFrame f y0 y1 x0 x1 := by
+  intro g hg
+  cases op with
+  | cropxy y0 y1 x0 x1 =>
+    obtain ⟨f, hf, e⟩ := slice_frames v w _ _ _ _ _ _ h g hg
+    exact ⟨f, hf, _, _, _, _, e⟩
+  | index i y0 y1 x0 x1 =>
+    obtain ⟨w', hw', hfr⟩ := stamp_view _ w h
+    obtain ⟨f, hf, e⟩ := index_frames v w' _ _ _ _ _ hw' g (hfr ▸ hg)
+    exact ⟨f, hf, _, _, _, _, e⟩
+  | slice a b y0 y1 x0 x1 =>
+    obtain ⟨w', hw', hfr⟩ := stamp_view _ w h
+    obtain ⟨f, hf, e⟩ := slice_frames v w' _ _ _ _ _ _ hw' g (hfr ▸ hg)
+    exact ⟨f, hf, _, _, _, _, e⟩
+  | sliceT a b =>
+    obtain ⟨w', hw', hfr⟩ := stamp_view _ w h
+    obtain ⟨f, hf, e⟩ := slice_frames v w' _ _ _ _ _ _ hw' g (hfr ▸ hg)
+    exact ⟨f, hf, _, _, _, _, e⟩
+  | get fi sp =>
+    simp only [SView.apply, SView.getitem] at h
+    split at h
+    · cases h
+    · split at h
+      · cases h
+      · split at h
+        · obtain ⟨w', hw', hfr⟩ := stamp_view _ w h
+          obtain ⟨f, hf, e⟩ := index_frames v w' _ _ _ _ _ hw' g (hfr ▸ hg)
+          exact ⟨f, hf, _, _, _, _, e⟩
+        · obtain ⟨w', hw', hfr⟩ := stamp_view _ w h
+          obtain ⟨f, hf, e⟩ := slice_frames v w' _ _ _ _ _ _ hw' g (hfr ▸ hg)
+          exact ⟨f, hf, _, _, _, _, e⟩
+
+/-- on a rectangular frame the pixel crop is a window (negative / open / out-of-range bounds normalised as Python does) -/
+theorem cropFrame_subImg (f : Frame) (n : Nat) (hr : Rect f n) (y0 y1 x0 x1 : Option Int) :
+    SubImg (cropFrame f y0 y1 x0 x1) f ∧ ∃ m, Rect (cropFrame f y0 y1 x0 x1) m := by
+  have e : cropFrame f y0 y1 x0 x1 =
+      takeCols ((f.take (pyNorm f.length (y1.getD f.length))).drop (pyNorm f.length (y0.getD 0)))
+        (pyNorm n (x0.getD 0)) (pyNorm n (x1.getD n)) := by
+    unfold cropFrame takeCols
+    simp only [pySliceOpt, pySlice]
+    apply List.map_congr_left
+    intro row hrow
+    rw [hr row (List.mem_of_mem_take (List.mem_of_mem_drop hrow))]
+  refine ⟨⟨_, _, _, _, e⟩, min (pyNorm n (x1.getD n)) n - pyNorm n (x0.getD 0), ?_⟩
+  rw [e]
+  intro row hrow
+  simp only [takeCols, List.mem_map] at hrow
+  obtain ⟨r, hrm, rfl⟩ := hrow
+  simp [hr r (List.mem_of_mem_take (List.mem_of_mem_drop hrm))]
+
+/-- **For every program of scan operations, of any length** (frame indices and slices with any bounds, time windows,
+    items as the user writes them, pixel crops): if it yields a scan at all, every frame shown is a window — rows and
+    columns in place and in order — of one of the source's frames. -/
+theorem scan_program_shows_windows (prog : List SOp) (v w : SView) (hrect : ∀ f ∈ v.frames, ∃ n, Rect f n)
+    (h : runS v prog = .view w) :
+    (∀ g ∈ w.frames, ∃ f ∈ v.frames, SubImg g f) ∧ ∀ g ∈ w.frames, ∃ n, Rect g n := by
+  induction prog generalizing v with
+  | nil =>
+    injection h with h; rw [← h]
+    exact ⟨fun g hg => ⟨g, hg, SubImg.refl g⟩, hrect⟩
+  | cons op ops ih =>
+    simp only [runS] at h
+    cases hop : v.apply op with
+    | view v' =>
+      rw [hop] at h
+      simp only at h
+      have h1 := apply_frames v v' op hop
+      have hrect' : ∀ f ∈ v'.frames, ∃ n, Rect f n := by
+        intro g hg
+        obtain ⟨f, hf, y0, y1, x0, x1, rfl⟩ := h1 g hg
+        obtain ⟨n, hn⟩ := hrect f hf
+        exact (cropFrame_subImg f n hn y0 y1 x0 x1).2
+      obtain ⟨ih1, ih2⟩ := ih v' hrect' h
+      refine ⟨?_, ih2⟩
+      intro g hg
+      obtain ⟨f', hf', hs'⟩ := ih1 g hg
+      obtain ⟨f, hf, y0, y1, x0, x1, rfl⟩ := h1 f' hf'
+      obtain ⟨n, hn⟩ := hrect f hf
+      exact ⟨f, hf, SubImg.trans hs' (cropFrame_subImg f n hn y0 y1 x0 x1).1⟩
+    | empty => rw [hop] at h; cases h
+    | err e => rw [hop] at h; cases h
+
+/-- non-vacuity: `scan[1:]["…":, :, 1:]` on the three frames of `exScan3` -/
+example : (match runS exScan3 [.slice (some 1) none none none none none, .get (.slice (.num (-1)) .none false) [.slice none none false, .slice (some 1) none false]] with
+    | .view w => decide (w.frames.map values = [[[3]]]) | _ => false) = true := by decide +kernel
+
+/-- pixels that are neighbours along the position axis (same line) are `pt` apart in time -/
+def RowStep (img : Img) (pt : Int) : Prop :=
+  ∀ r c p q, pixAt img r c = some p → pixAt img (r + 1) c = some q → q.tmean - p.tmean = pt
+
+theorem pixAt_window (f : Img) (r0 r1 c0 c1 r c : Nat) (p : Pix)
+    (h : pixAt (takeCols ((f.take r1).drop r0) c0 c1) r c = some p) : pixAt f (r0 + r) (c0 + c) = some p := by
+  unfold pixAt takeCols at h
+  rw [List.getElem?_map, takeCols_getElem?] at h
+  unfold pixAt
+  split at h
+  · cases hrow : f[r0 + r]? with
+    | none => rw [hrow] at h; cases h
+    | some row =>
+      rw [hrow] at h
+      simp only [Option.map_some, Option.bind_some] at h ⊢
+      rw [takeCols_getElem?] at h
+      split at h
+      · exact h
+      · cases h
+  · cases h
+
+theorem RowStep.sub {g f : Img} {pt : Int} (h : SubImg g f) (hs : RowStep f pt) : RowStep g pt := by
+  obtain ⟨r0, r1, c0, c1, rfl⟩ := h
+  intro r c p q hp hq
+  have hp' := pixAt_window f r0 r1 c0 c1 r c p hp
+  have hq' := pixAt_window f r0 r1 c0 c1 (r + 1) c q hq
+  exact hs (r0 + r) (c0 + c) p q hp' (by rw [← hq']; congr 1)
+
+/-- **Pixel time after any program of selecting operations.**  If neighbouring pixels of a line of the source are `pt`
+    apart, every processed kymograph the program yields that can report a pixel time at all reports `pt` (the code reads
+    it off the timestamps of pixels `[0,0]` and `[1,0]` of the derived object). -/
+theorem selecting_program_pixel_time (prog : List KOp) (hsel : ∀ op ∈ prog, op.selects = true) (v w : KView)
+    (h : runK v prog = .view w) (pt : Int) (hs : RowStep v.img pt) (hp : w.processed = true) (t : Int)
+    (ht : w.pixelTime = .ok t) : t = pt := by
+  have hsub := RowStep.sub (selecting_program_shows_window prog hsel v w h) hs
+  unfold KView.pixelTime at ht
+  simp only [hp, Bool.not_true, Bool.false_eq_true, ↓reduceIte] at ht
+  split at ht
+  · cases ht
+  · split at ht
+    · rename_i a b ha hb
+      injection ht with ht
+      rw [← ht]
+      exact hsub 0 0 a b ha hb
+    · cases ht
+
+/-- non-vacuity: in `exKymo` the two pixels of every line are 20 ns apart; cropping after a time slice keeps that -/
+example : RowStep exKymo.img 20 := by
+  intro r c p q hp hq
+  match r, c with
+  | 0, 0 => simp [pixAt, exKymo] at hp hq; subst hp hq; decide
+  | 0, 1 => simp [pixAt, exKymo] at hp hq; subst hp hq; decide
+  | 0, 2 => simp [pixAt, exKymo] at hp hq; subst hp hq; decide
+  | 0, c + 3 => simp [pixAt, exKymo] at hp
+  | 1, c => simp [pixAt, exKymo] at hq
+  | r + 2, c => simp [pixAt, exKymo] at hp
+
+example : (match runK exKymo [.slice 150 1000, .crop 0 2] with
+    | .view w => (match w.pixelTime with | .ok t => decide (t = 20 ∧ w.processed = true) | _ => false) | _ => false) = true := by decide +kernel
+
+theorem stamp_fastRows (r : SRes) (w : SView) (h : r.stamp = .view w) : ∃ w', r = .view w' ∧ w.fastRows = w'.fastRows := by
+  cases r with
+  | view w' => injection h with h; exact ⟨w', rfl, by rw [← h]; rfl⟩
+  | empty => cases h
+  | err e => cases h
+
+theorem index_fastRows (v w : SView) (i : Int) (y0 y1 x0 x1 : Option Int) (h : v.index i y0 y1 x0 x1 = .view w) :
+    w.fastRows = v.fastRows := by
+  rw [scan_index_refines] at h
+  split at h
+  · cases h
+  · split at h
+    · cases h
+    · injection h with h; rw [← h]
+
+theorem slice_fastRows (v w : SView) (a b y0 y1 x0 x1 : Option Int) (h : v.slice a b y0 y1 x0 x1 = .view w) :
+    w.fastRows = v.fastRows := by
+  rw [scan_slice_refines] at h
+  split at h
+  · cases h
+  · split at h
+    · cases h
+    · injection h with h; rw [← h]
+
+theorem apply_fastRows (v w : SView) (op : SOp) (h : v.apply op = .view w) : w.fastRows = v.fastRows := by
+  cases op with
+  | cropxy y0 y1 x0 x1 => exact slice_fastRows v w _ _ _ _ _ _ h
+  | index i y0 y1 x0 x1 =>
+    obtain ⟨w', hw', e⟩ := stamp_fastRows _ w h
+    rw [e]; exact index_fastRows v w' _ _ _ _ _ hw'
+  | slice a b y0 y1 x0 x1 =>
+    obtain ⟨w', hw', e⟩ := stamp_fastRows _ w h
+    rw [e]; exact slice_fastRows v w' _ _ _ _ _ _ hw'
+  | sliceT a b =>
+    obtain ⟨w', hw', e⟩ := stamp_fastRows _ w h
+    rw [e]; exact slice_fastRows v w' _ _ _ _ _ _ hw'
+  | get fi sp =>
+    simp only [SView.apply, SView.getitem] at h
+    split at h
+    · cases h
+    · split at h
+      · cases h
+      · split at h
+        · obtain ⟨w', hw', e⟩ := stamp_fastRows _ w h
+          rw [e]; exact index_fastRows v w' _ _ _ _ _ hw'
+        · obtain ⟨w', hw', e⟩ := stamp_fastRows _ w h
+          rw [e]; exact slice_fastRows v w' _ _ _ _ _ _ hw'
+
+theorem runS_fastRows (prog : List SOp) (v w : SView) (h : runS v prog = .view w) : w.fastRows = v.fastRows := by
+  induction prog generalizing v with
+  | nil => injection h with h; rw [← h]
+  | cons op ops ih =>
+    simp only [runS] at h
+    cases hop : v.apply op with
+    | view v' => rw [hop] at h; simp only at h; rw [ih v' h, apply_fastRows v v' op hop]
+    | empty => rw [hop] at h; cases h
+    | err e => rw [hop] at h; cases h
+
+/-- **Pixel time after any program of scan operations**, for either orientation of the fast axis: if fast-axis
+    neighbours of the source are `pt` apart, every scan the program yields that can report a pixel time reports `pt`
+    (extends `scan_slice_keeps_fast_step` from one frame slice to all programs, time windows and user-style items
+    included). -/
+theorem scan_program_pixel_time (prog : List SOp) (v w : SView) (hrect : ∀ f ∈ v.frames, ∃ n, Rect f n)
+    (h : runS v prog = .view w) (pt : Int) (hstep : FastStep v pt) (t : Int) (ht : w.pixelTime = some t) : t = pt := by
+  refine scan_pixel_time_of_fast_step w pt t ?_ ht
+  have hfr := runS_fastRows prog v w h
+  obtain ⟨hwin, _⟩ := scan_program_shows_windows prog v w hrect h
+  intro g hg r c p q hp hq
+  obtain ⟨f, hf, r0, r1, c0, c1, rfl⟩ := hwin g hg
+  have hp' := pixAt_window f r0 r1 c0 c1 r c p hp
+  have hq' := pixAt_window f r0 r1 c0 c1 _ _ q hq
+  refine hstep f hf (r0 + r) (c0 + c) p q hp' ?_
+  rw [hfr] at hq'
+  rw [← hq']
+  cases v.fastRows <;> simp only [Bool.false_eq_true, ↓reduceIte] <;> congr 1
+
+/-! ## Crop and binning / flip commute (aligned windows) -/
+
+theorem take_drop_take {α} (l : List α) (m d k : Nat) (h : d + k ≤ m) :
+    (((l.take m).drop d).take k) = (l.drop d).take k := by
+  apply List.ext_getElem?
+  intro i
+  simp only [List.getElem?_take, List.getElem?_drop]
+  by_cases hi : i < k
+  · have : d + i < m := by omega
+    simp [hi, this]
+  · simp [hi]
+
+/-- the full blocks of a block-aligned window are the corresponding blocks of the whole -/
+theorem chunks_window {α} (k : Nat) (hk : 0 < k) (l : List α) (a b : Nat) :
+    chunks k ((l.take (k * b)).drop (k * a)) = ((chunks k l).take b).drop a := by
+  have hlenL : (chunks k ((l.take (k * b)).drop (k * a))).length = (min (k * b) l.length - k * a) / k := by
+    rw [chunks_length k hk]; simp
+  have hlenR : (((chunks k l).take b).drop a).length = min b (l.length / k) - a := by
+    simp [chunks_length k hk]
+  have hlen : (min (k * b) l.length - k * a) / k = min b (l.length / k) - a := by
+    by_cases hb : k * b ≤ l.length
+    · have h1 : b ≤ l.length / k := (Nat.le_div_iff_mul_le hk).mpr (by rw [Nat.mul_comm]; exact hb)
+      rw [Nat.min_eq_left hb, Nat.min_eq_left h1, ← Nat.mul_sub, Nat.mul_div_cancel_left _ hk]
+    · have h1 : l.length / k ≤ b := by
+        have : l.length / k < b := (Nat.div_lt_iff_lt_mul hk).mpr (by rw [Nat.mul_comm]; omega)
+        omega
+      rw [Nat.min_eq_right (by omega), Nat.min_eq_right h1, Nat.sub_mul_div]
+  apply List.ext_getElem
+  · rw [hlenL, hlenR, hlen]
+  · intro i h1 h2
+    rw [chunks_getElem k hk _ i h1]
+    have h2' : a + i < (chunks k l).length := by
+      simp only [List.length_drop, List.length_take] at h2; omega
+    have hib : a + i < b := by
+      simp only [List.length_drop, List.length_take] at h2; omega
+    simp only [List.getElem_drop, List.getElem_take]
+    rw [chunks_getElem k hk l (a + i) h2', List.drop_drop]
+    have hbound : (k * a + i * k) + k ≤ k * b := by
+      have : (a + i + 1) * k ≤ b * k := Nat.mul_le_mul_right k (by omega)
+      rw [Nat.mul_comm b k] at this
+      have e : (a + i + 1) * k = k * a + i * k + k := by
+        rw [Nat.add_mul, Nat.add_mul, Nat.one_mul, Nat.mul_comm a k]
+      omega
+    rw [take_drop_take l (k * b) (k * a + i * k) k hbound]
+    congr 2
+    rw [Nat.add_mul, Nat.mul_comm a k]
+
+/-- **Cropping whole bins commutes with binning in position**: binning the rows `pf·a ≤ r < pf·b` of the image gives
+    rows `a ≤ r < b` of the binned image (for any time factor). -/
+theorem crop_then_downsample (img : Img) (pf tf : Nat) (hpf : 0 < pf) (a b : Nat) :
+    blockReduce ((img.take (pf * b)).drop (pf * a)) pf tf = ((blockReduce img pf tf).take b).drop a := by
+  unfold blockReduce
+  rw [chunks_window pf hpf img a b, List.map_drop, List.map_take]
+
+/-- **Crop of a flipped image**: rows `l ≤ r < u` of the flipped image are the rows `n − u ≤ r < n − l` of the image,
+    flipped. -/
+theorem flip_then_crop {α} (img : List α) (l u : Nat) (hu : u ≤ img.length) :
+    (img.reverse.take u).drop l = ((img.take (img.length - l)).drop (img.length - u)).reverse := by
+  have hlenR : ((img.take (img.length - l)).drop (img.length - u)).length = u - l := by simp; omega
+  apply List.ext_getElem?
+  intro i
+  simp only [List.getElem?_drop, List.getElem?_take]
+  by_cases h : l + i < u
+  · have h1 : l + i < img.length := by omega
+    rw [if_pos h, List.getElem?_reverse h1, List.getElem?_reverse (by rw [hlenR]; omega), hlenR,
+      List.getElem?_drop, List.getElem?_take, if_pos (by omega)]
+    congr 1; omega
+  · rw [if_neg h]
+    symm
+    rw [List.getElem?_eq_none_iff, List.length_reverse, hlenR]
+    omega
+
+/-! ## A regularly acquired kymograph establishes the hypotheses -/
+
+theorem maxList_extr (l : List Int) (hl : l ≠ []) : (∀ x ∈ l, x ≤ maxList l) ∧ maxList l ∈ l := by
+  cases l with
+  | nil => exact absurd rfl hl
+  | cons a as =>
+    have key : ∀ (xs : List Int) (m : Int), (∀ x ∈ m :: xs, x ≤ xs.foldl max m) ∧ xs.foldl max m ∈ m :: xs := by
+      intro xs
+      induction xs with
+      | nil => intro m; simp
+      | cons y ys ih =>
+        intro m
+        obtain ⟨h1, h2⟩ := ih (max m y)
+        simp only [List.foldl_cons]
+        constructor
+        · intro x hx
+          simp only [List.mem_cons] at hx
+          rcases hx with rfl | rfl | hx
+          · have := h1 (max x y) (by simp); omega
+          · have := h1 (max m x) (by simp); omega
+          · exact h1 x (by simp [hx])
+        · simp only [List.mem_cons] at h2 ⊢
+          rcases h2 with h2 | h2
+          · rcases Int.le_total m y with h | h
+            · right; left; rw [h2]; omega
+            · left; rw [h2]; omega
+          · right; right; exact h2
+    have := key (a :: as) a
+    simp only [maxList, List.headD_cons]
+    constructor
+    · intro x hx; exact this.1 x (List.mem_cons_of_mem _ hx)
+    · simpa using this.2
+
+theorem regular_column (t0 : Int) (P L k dead : Nat) (dt : Int) (j : Nat) (hj : j < L) :
+    column (regularImg t0 P L k dead dt) j = (List.range P).map fun r => regPix t0 P k dead dt r j := by
+  unfold column regularImg
+  rw [List.filterMap_map]
+  induction (List.range P) with
+  | nil => rfl
+  | cons r rs ih => simp [hj, ih]
+
+
+theorem regular_numCols (t0 : Int) (P L k dead : Nat) (dt : Int) (hP : 0 < P) :
+    numCols (regularImg t0 P L k dead dt) = L := by
+  unfold numCols regularImg
+  cases P with
+  | zero => omega
+  | succ P => simp [List.range_succ_eq_map]
+
+theorem mul_mono (a b : Nat) (c : Int) (hc : 0 ≤ c) (h : a ≤ b) : (a : Int) * c ≤ (b : Int) * c :=
+  Int.mul_le_mul_of_nonneg_right (by omega) hc
+
+/-- line range `j` of a regular kymograph: starts with its first sample, ends one sample after its last used one -/
+theorem regular_range (t0 : Int) (P L k dead : Nat) (dt : Int) (hP : 0 < P) (hk : 0 < k) (hdt : 0 < dt) (j : Nat) (hj : j < L) :
+    (lineRanges (regularImg t0 P L k dead dt) dt)[j]? =
+      some (t0 + ((j * (P * k + dead) : Nat) : Int) * dt, t0 + ((j * (P * k + dead) + P * k : Nat) : Int) * dt) := by
+  unfold lineRanges
+  rw [regular_numCols _ _ _ _ _ _ hP, List.getElem?_map, List.getElem?_range hj]
+  simp only [Option.map_some, Option.some.injEq, Prod.mk.injEq]
+  constructor
+  · unfold regularImg
+    cases P with
+    | zero => omega
+    | succ P => simp [List.range_succ_eq_map, hj, regPix]
+  · rw [regular_column _ _ _ _ _ _ _ hj, List.map_map]
+    have hne : (List.range P).map ((·.tmax) ∘ fun r => regPix t0 P k dead dt r j) ≠ [] := by
+      cases P with
+      | zero => omega
+      | succ P => simp [List.range_succ_eq_map]
+    obtain ⟨hub, hmem⟩ := maxList_extr _ hne
+    -- the last pixel of the line is in the column, and no pixel ends later
+    have hlast : t0 + ((j * (P * k + dead) + (P - 1) * k + (k - 1) : Nat) : Int) * dt ∈
+        (List.range P).map ((·.tmax) ∘ fun r => regPix t0 P k dead dt r j) := by
+      simp only [List.mem_map, List.mem_range, Function.comp_apply]
+      exact ⟨P - 1, by omega, rfl⟩
+    have h1 := hub _ hlast
+    simp only [List.mem_map, List.mem_range, Function.comp_apply] at hmem
+    obtain ⟨r, hr, hre⟩ := hmem
+    have h2 : maxList ((List.range P).map ((·.tmax) ∘ fun r => regPix t0 P k dead dt r j)) ≤
+        t0 + ((j * (P * k + dead) + (P - 1) * k + (k - 1) : Nat) : Int) * dt := by
+      rw [← hre]
+      simp only [regPix]
+      have : r * k ≤ (P - 1) * k := Nat.mul_le_mul_right k (by omega)
+      have := mul_mono (j * (P * k + dead) + r * k + (k - 1)) (j * (P * k + dead) + (P - 1) * k + (k - 1)) dt (by omega) (by omega)
+      omega
+    have e : ((j * (P * k + dead) + P * k : Nat) : Int) = ((j * (P * k + dead) + (P - 1) * k + (k - 1) : Nat) : Int) + 1 := by
+      have : P * k = (P - 1) * k + k := by
+        have : P = (P - 1) + 1 := by omega
+        conv => lhs; rw [this, Nat.add_mul, Nat.one_mul]
+      omega
+    rw [e, Int.add_mul]
+    omega
+
+
+theorem regular_ranges (t0 : Int) (P L k dead : Nat) (dt : Int) (hP : 0 < P) (hk : 0 < k) (hdt : 0 < dt) :
+    lineRanges (regularImg t0 P L k dead dt) dt = (List.range L).map fun j =>
+      (t0 + ((j * (P * k + dead) : Nat) : Int) * dt, t0 + ((j * (P * k + dead) + P * k : Nat) : Int) * dt) := by
+  apply List.ext_getElem?
+  intro j
+  by_cases hj : j < L
+  · rw [regular_range t0 P L k dead dt hP hk hdt j hj, List.getElem?_map, List.getElem?_range hj]; rfl
+  · have h1 : (lineRanges (regularImg t0 P L k dead dt) dt).length = L := by
+      simp [lineRanges, regular_numCols _ _ _ _ _ _ hP]
+    rw [List.getElem?_eq_none_iff.mpr (by omega), List.getElem?_eq_none_iff.mpr (by simp; omega)]
+
+/-- **A regularly acquired kymograph establishes the hypotheses the slice theorems assume**: its lines lie inside
+    `[t0 − lead·dt, t0 + L·(P·k + dead)·dt]` (the window of its info wave), in order, not overlapping (`KWf`, hence sorted
+    starts), and they start one line period `(P·k + dead)·dt` apart (hypothesis of `slice_line_time`). -/
+theorem regular_establishes (t0 : Int) (P L k dead lead : Nat) (dt : Int) (hP : 0 < P) (hk : 0 < k) (hdt : 0 < dt) :
+    RangesOk (lineRanges (regularImg t0 P L k dead dt) dt) (t0 - (lead : Int) * dt)
+      (t0 + ((L * (P * k + dead) : Nat) : Int) * dt) ∧
+    ∀ j (h : j + 1 < (lineRanges (regularImg t0 P L k dead dt) dt).length),
+      (lineRanges (regularImg t0 P L k dead dt) dt)[j + 1].1 - (lineRanges (regularImg t0 P L k dead dt) dt)[j].1 =
+        ((P * k + dead : Nat) : Int) * dt := by
+  have hPk : 1 ≤ P * k := Nat.mul_pos hP hk
+  have hlead : 0 ≤ (lead : Int) * dt := Int.mul_nonneg (by omega) (by omega)
+  constructor
+  · rw [regular_ranges t0 P L k dead dt hP hk hdt]
+    constructor
+    · rw [List.pairwise_map]
+      refine List.Pairwise.imp ?_ List.pairwise_lt_range
+      intro j j' hjj
+      simp only
+      have h1 : (j + 1) * (P * k + dead) ≤ j' * (P * k + dead) := Nat.mul_le_mul_right _ (by omega)
+      rw [Nat.add_mul, Nat.one_mul] at h1
+      have := mul_mono (j * (P * k + dead) + P * k) (j' * (P * k + dead)) dt (by omega) (by omega)
+      omega
+    · intro r hr
+      simp only [List.mem_map, List.mem_range] at hr
+      obtain ⟨j, hj, rfl⟩ := hr
+      simp only
+      have h0 : 0 ≤ ((j * (P * k + dead) : Nat) : Int) * dt := Int.mul_nonneg (by omega) (by omega)
+      have h1 := mul_mono (j * (P * k + dead) + 1) (j * (P * k + dead) + P * k) dt (by omega) (by omega)
+      have e1 : ((j * (P * k + dead) + 1 : Nat) : Int) * dt = ((j * (P * k + dead) : Nat) : Int) * dt + dt := by
+        rw [Int.natCast_add, Int.add_mul]; simp
+      have h2 : (j + 1) * (P * k + dead) ≤ L * (P * k + dead) := Nat.mul_le_mul_right _ (by omega)
+      rw [Nat.add_mul, Nat.one_mul] at h2
+      have h3 := mul_mono (j * (P * k + dead) + P * k) (L * (P * k + dead)) dt (by omega) (by omega)
+      omega
+  · intro j h
+    have hL : (lineRanges (regularImg t0 P L k dead dt) dt).length = L := by
+      simp [lineRanges, regular_numCols _ _ _ _ _ _ hP]
+    have g1 := regular_range t0 P L k dead dt hP hk hdt (j + 1) (by omega)
+    have g0 := regular_range t0 P L k dead dt hP hk hdt j (by omega)
+    rw [List.getElem?_eq_getElem h] at g1
+    rw [List.getElem?_eq_getElem (by omega)] at g0
+    injection g1 with g1
+    injection g0 with g0
+    rw [g1, g0]
+    simp only
+    have e : (((j + 1) * (P * k + dead) : Nat) : Int) = ((j * (P * k + dead) : Nat) : Int) + ((P * k + dead : Nat) : Int) := by
+      rw [Nat.add_mul, Nat.one_mul]; omega
+    rw [e, Int.add_mul]; omega
+
+
+theorem regular_pixAt (t0 : Int) (P L k dead : Nat) (dt : Int) (r c : Nat) (p : Pix)
+    (h : pixAt (regularImg t0 P L k dead dt) r c = some p) : r < P ∧ c < L ∧ p = regPix t0 P k dead dt r c := by
+  unfold pixAt regularImg at h
+  rw [List.getElem?_map] at h
+  by_cases hr : r < P
+  · rw [List.getElem?_range hr] at h
+    simp only [Option.map_some, Option.bind_some, List.getElem?_map] at h
+    by_cases hc : c < L
+    · rw [List.getElem?_range hc] at h
+      simp only [Option.map_some, Option.some.injEq] at h
+      exact ⟨hr, hc, h.symm⟩
+    · rw [List.getElem?_eq_none_iff.mpr (by simp; omega)] at h; cases h
+  · rw [List.getElem?_eq_none_iff.mpr (by simp; omega)] at h; cases h
+
+/-- … and its pixels follow each other `k·dt` apart along a line (hypothesis of `selecting_program_pixel_time`) -/
+theorem regular_row_step (t0 : Int) (P L k dead : Nat) (dt : Int) :
+    RowStep (regularImg t0 P L k dead dt) ((k : Int) * dt) := by
+  intro r c p q hp hq
+  obtain ⟨_, _, rfl⟩ := regular_pixAt _ _ _ _ _ _ _ _ _ hp
+  obtain ⟨_, _, rfl⟩ := regular_pixAt _ _ _ _ _ _ _ _ _ hq
+  simp only [Pix.tmean, regPix]
+  have e1 : ∀ a : Nat, t0 + ((a + (k - 1) : Nat) : Int) * dt - (t0 + ((a : Nat) : Int) * dt) = ((k - 1 : Nat) : Int) * dt := by
+    intro a; rw [Int.natCast_add, Int.add_mul]; omega
+  rw [e1, e1]
+  have e2 : ((c * (P * k + dead) + (r + 1) * k : Nat) : Int) * dt =
+      ((c * (P * k + dead) + r * k : Nat) : Int) * dt + (k : Int) * dt := by
+    rw [← Int.add_mul]; congr 1
+    rw [Nat.add_mul, Nat.one_mul]; omega
+  rw [e2]; omega
+
+/-- non-vacuity / instance: `exKymo`'s timing is that of a regular kymograph with 2 pixels of 2 samples, 6 dead samples,
+    10 ns period (its counts aside) -/
+example : (regularImg 100 2 3 2 6 10).map (fun r => r.map fun p => (p.tmin, p.tmax)) =
+    exKymo.img.map (fun r => r.map fun p => (p.tmin, p.tmax)) := by decide +kernel
+
+theorem chunks_map {α β} (f : α → β) (k : Nat) (l : List α) : chunks k (l.map f) = (chunks k l).map (List.map f) := by
+  fun_induction chunks k l with
+  | case1 l hk => subst hk; rw [chunks_zero]; rfl
+  | case2 l hk hlt => unfold chunks; simp [hk, hlt]
+  | case3 l hk hlt ih =>
+    conv => lhs; unfold chunks
+    simp only [dif_neg hk, List.length_map, if_neg hlt, List.map_cons, ← List.map_take, ← List.map_drop, ih]
+
+theorem addRows_window (band : List (List Pix)) (c0 c1 : Nat) :
+    addRows (band.map fun row => (row.take c1).drop c0) = ((addRows band).take c1).drop c0 := by
+  cases band with
+  | nil => simp [addRows]
+  | cons r rs =>
+    simp only [addRows, List.map_cons]
+    induction rs generalizing r with
+    | nil => rfl
+    | cons x xs ih =>
+      simp only [List.map_cons, List.foldl_cons]
+      rw [← ih (List.zipWith Pix.add r x)]
+      congr 1
+      rw [List.take_zipWith, List.drop_zipWith]
+
+/-- **A time window of whole bins commutes with binning in time**: binning lines `tf·a ≤ c < tf·b` of the image (what a
+    time slice on bin edges followed by `downsampled_by` shows) gives lines `a ≤ c < b` of the binned image. -/
+theorem slice_then_downsample (img : Img) (pf tf : Nat) (htf : 0 < tf) (a b : Nat) :
+    blockReduce (takeCols img (tf * a) (tf * b)) pf tf = takeCols (blockReduce img pf tf) a b := by
+  unfold blockReduce takeCols
+  rw [chunks_map, List.map_map, List.map_map]
+  apply List.map_congr_left
+  intro band _
+  simp only [Function.comp_apply]
+  rw [addRows_window, chunks_window tf htf, List.map_drop, List.map_take]
 
 end Verif.C06
